@@ -284,7 +284,10 @@ func focus(g *G, roots []*N, hops int) *G {
 	return w
 }
 
-// perturb makes a graph that is NOT necessarily well-formed or closed (tests the faithful model only).
+// perturb makes a graph that is NOT necessarily well-formed or closed, i.e. possibly OUTSIDE Inv (used only to
+// exercise the faithful model; every case records per input graph whether it satisfies Inv: Go side invOK, model side
+// the driver's "I <case> <graph> <wf> <closed>" lines, and only all-Inv cases can raise a tie alarm).  weaken, focus and
+// randomGraph(inv=true) produce graphs INSIDE Inv whenever their input is.
 func perturb(r *rng, g *G) *G {
 	w := g.Clone()
 	nodes := escape.VerifNodes(w)
@@ -303,8 +306,12 @@ func perturb(r *rng, g *G) *G {
 			escape.VerifRawDelStatus(w, n)
 			escape.VerifRawDelEdgeKey(w, n)
 		case 2:
-			m := nodes[r.n(len(nodes))]
-			escape.VerifRawSetEdge(w, n, m, 1+r.n(7))
+			// only from a node that has a status entry: an edge key without a status entry (see case 1) is exactly
+			// the shape that makes Merge order-dependent
+			if _, ok := escape.VerifStatus(w, n); ok {
+				m := nodes[r.n(len(nodes))]
+				escape.VerifRawSetEdge(w, n, m, 1+r.n(7))
+			}
 		case 3:
 			ds, _ := escape.VerifOut(w, n)
 			if len(ds) > 0 {
